@@ -240,10 +240,19 @@ def make_run(name, sbo, size, seed):
     return o.start(store_best_only=sbo)
 
 
+SAVELOAD_COUNT = [1]        # replays (one call) take the overwrite branch
+
+
 def saveload_check(h, tag, E):
     """save -> load into a fresh History (with the opposite flag) -> compare __dict__ deeply."""
     path = os.path.join(os.getcwd(), 'hist_%s.pkl' % tag)
     before = enc_dict(h.__dict__, E)
+    SAVELOAD_COUNT[0] += 1
+    if SAVELOAD_COUNT[0] % 2 == 0:
+        # the path already holds another pickled History (a reused output file / checkpointing): save() must replace it
+        pre = History(store_best_only=not bool(h.store_best_only))
+        pre.dump(marker=1.0)
+        pre.save(path)
     h.save(path)
     after_save = enc_dict(h.__dict__, E)
     fresh = History(store_best_only=not bool(h.store_best_only))
